@@ -198,6 +198,38 @@ func c11Slots() []c11Slot {
 				return out
 			},
 			llvmRe: func(out string) []string { return scanAfter(out, " = global i32 0, comdat($", ")\n") }},
+		{name: "comdat-name-on-unnamed-global", isName: true,
+			// unnamed globals and functions @0, @1, ...: a comdat named like the number of
+			// its global (a name made of digits) is still a name of its own, which the
+			// short form `comdat` cannot stand for
+			build: func(ss []string) *ir.Module {
+				m := ir.NewModule()
+				for i, s := range ss {
+					c := &ir.ComdatDef{Name: s, Kind: enum.SelectionKindAny}
+					m.ComdatDefs = append(m.ComdatDefs, c)
+					if i%2 == 0 {
+						g := m.NewGlobalDef("", i32c(0))
+						g.Comdat = c
+					} else {
+						f := m.NewFunc("", types.Void)
+						f.NewBlock("").NewRet(nil)
+						f.Comdat = c
+					}
+				}
+				return m
+			},
+			read: func(m *ir.Module) []string {
+				// globals are printed before functions: even positions, then odd ones
+				n := len(m.Globals) + len(m.Funcs)
+				out := make([]string, n)
+				for k, g := range m.Globals {
+					out[2*k] = g.Comdat.Name
+				}
+				for k, f := range m.Funcs {
+					out[2*k+1] = f.Comdat.Name
+				}
+				return out
+			}},
 		{name: "named-metadata-name", isName: true,
 			build: func(ss []string) *ir.Module {
 				m := ir.NewModule()
@@ -542,6 +574,9 @@ func c11Strings(ctx *fw.Ctx, forName bool) []string {
 		}
 		cur = next
 	}
+	for i := 0; i < 12; i++ {
+		add(strconv.Itoa(i))
+	}
 	for _, s := range []string{"+7", "-5", "+0", "-0", "+007", "0x7", "7e1", "42", "007", "0", "00", "9223372036854775807", "9223372036854775808", "18446744073709551615", "18446744073709551616", "99999999999999999999999999", "-1", "-0", "1e5", "0x10",
 		"\\5C", "\\\\", "\\22", "a\\5Cb", "\\", "\"", "\"\"", "\\0", "\\0g", "\\G0", "%", "@", "!", "$", "#0", "a b", " a", "a ", "\t", "\n", "\r\n", "日本語", "\xff\xfe", "entry", "true", "null", "x86_fp80", "c\"x\"", ".", "-", "_", "$", "..", "a.b-c_d$e"} {
 		add(s)
@@ -592,6 +627,7 @@ func genC11(ctx *fw.Ctx) []fw.Case {
 		b := b
 		cases = append(cases, fw.Case{ID: fmt.Sprintf("enc/%d", b), Run: func(r *fw.Rec) { c11Enc(r, b, 4) }})
 	}
+	cases = append(cases, fw.Case{ID: "comdat-named-like-the-number-of-its-global", Run: c11ComdatLikeID})
 	return cases
 }
 
@@ -973,4 +1009,67 @@ func c11Enc(r *fw.Rec, blk, nblk int) {
 	if blk == 0 {
 		r.Sample(map[string]interface{}{"direct_enc_roundtrips": n, "example": fmt.Sprintf("%q -> %s", all[40], export.Quote([]byte(all[40])))})
 	}
+}
+
+// c11ComdatLikeID: unnamed globals and functions @0 ... @7, each in a comdat
+// whose name is the decimal number of that very global (and one whose name is the
+// number of another): the name of a comdat is a name even when it looks like the
+// ID of its user; the printed module must be read back with the same comdat
+// names by the library and by LLVM.
+func c11ComdatLikeID(r *fw.Rec) {
+	m := ir.NewModule()
+	var want []string
+	for i := 0; i < 8; i++ {
+		name := strconv.Itoa(i)
+		if i == 5 {
+			name = "3x"
+		}
+		c := &ir.ComdatDef{Name: name, Kind: enum.SelectionKindAny}
+		m.ComdatDefs = append(m.ComdatDefs, c)
+		if i < 4 {
+			g := m.NewGlobalDef("", i32c(int64(i)))
+			g.Comdat = c
+		} else {
+			f := m.NewFunc("", types.Void)
+			f.NewBlock("").NewRet(nil)
+			f.Comdat = c
+		}
+		want = append(want, name)
+	}
+	r.Eval(1)
+	text, pp := printGuard(m)
+	if pp != "" {
+		r.Violate(fw.Violation{Key: "comdat-like-id/print-panic", What: firstLine(pp)})
+		return
+	}
+	m2, perr, pmsg := parseGuard("c11-comdat-like-id", text)
+	if pmsg != "" || perr != nil {
+		what := pmsg
+		if perr != nil {
+			what = perr.Error()
+		}
+		r.Violate(fw.Violation{Key: "comdat-like-id/reparse-rejected", Input: text, What: "a module whose comdats are named like the numbers of their unnamed globals is printed as text the library's parser rejects: " + firstLine(what)})
+		return
+	}
+	var got []string
+	for _, g := range m2.Globals {
+		if g.Comdat != nil {
+			got = append(got, g.Comdat.Name)
+		}
+	}
+	for _, f := range m2.Funcs {
+		if f.Comdat != nil {
+			got = append(got, f.Comdat.Name)
+		}
+	}
+	if strings.Join(got, ",") != strings.Join(want, ",") {
+		r.Violate(fw.Violation{Key: "comdat-like-id/names-changed", Input: text, What: fmt.Sprintf("comdat names read back as %q, want %q", got, want)})
+		return
+	}
+	if ok, msg, err := llvmref.Accepts(text); err == nil && !ok {
+		r.Violate(fw.Violation{Key: "comdat-like-id/llvm-rejects", Input: text, What: "LLVM rejects the printed module: " + firstLine(lastDiag(msg))})
+		return
+	}
+	r.Nontrivial(text)
+	r.Tally("roundtrip_ok", "comdat-named-like-the-number-of-its-global")
 }
